@@ -111,12 +111,12 @@ impl Sub for Races {
             c
         });
         let prefix_op = prop_oneof![8 => add_strategy().prop_map(Op::Add), 1 => any::<u16>().prop_map(Op::DelUid), 3 => Just(Op::Commit)];
-        (cfg, prop::collection::vec(prefix_op, 2..20), 0u8..3, 0u8..6, prop::collection::vec(add_strategy(), 1..5), prop::collection::vec(op_strategy(false), 0..8))
+        (cfg, prop::collection::vec(prefix_op, 2..20), 0u8..4, 0u8..6, prop::collection::vec(add_strategy(), 1..5), prop::collection::vec(op_strategy(false), 0..8))
             .prop_map(|(cfg, prefix, kind, nth, adds_during, suffix)| RaceCase { cfg, prefix, kind, nth, adds_during, suffix })
             .boxed()
     }
     fn mandatory_labels(&self, _t: Tier) -> Vec<&'static str> {
-        vec!["race:gc_queued_behind_commit", "race:gc_while_worker_writes_segment", "race:gc_while_merge_writes_segment", "gate_reached", "unpublished_files_existed_during_gc"]
+        vec!["race:gc_queued_behind_commit", "race:gc_while_worker_writes_segment", "race:gc_while_merge_writes_segment", "race:gc_while_reader_loads", "reader_held_at_meta_lock", "reader_held_at_segment_file_open", "gate_reached", "unpublished_files_existed_during_gc"]
     }
     fn run(&self, c: &RaceCase, cx: &Ctx) -> CaseResult {
         let mut env = Env::new(c.cfg.clone())?;
@@ -199,6 +199,50 @@ impl Sub for Races {
                 // explicit GC while the worker sits between two file creations
                 env.writer.as_ref().unwrap().garbage_collect_files().wait().or_fail("gc_failed")?;
                 sd.release(gate);
+            }
+            3 => {
+                // a reader on a second Index handle is held in the middle of a reload - either when it takes the meta lock or
+                // at its n-th segment-file open - while all segments are merged and the old files are collected
+                cx.label("race:gc_while_reader_loads");
+                let ids = env.index.searchable_segment_ids().or_fail("segment_ids_failed")?;
+                if ids.len() >= 2 {
+                    let second = tantivy::Index::open(sd.clone()).or_fail("second_index_open_failed")?;
+                    let (ready_tx, ready_rx) = std::sync::mpsc::channel::<()>();
+                    let (go_tx, go_rx) = std::sync::mpsc::channel::<()>();
+                    let expected = env.committed.clone();
+                    let at_lock = c.nth % 2 == 0;
+                    let gate_spec = if at_lock {
+                        GateSpec { thread: "reader-gc".into(), kind: Some(K::Create), path_suffix: "meta.lock".into(), nth: 0, max_hold: Duration::from_millis(350) }
+                    } else {
+                        GateSpec { thread: "reader-gc".into(), kind: Some(K::OpenRead), path_suffix: String::new(), nth: (c.nth / 2) as usize, max_hold: Duration::from_millis(350) }
+                    };
+                    let handle = std::thread::Builder::new()
+                        .name("reader-gc".into())
+                        .spawn(move || -> CaseResult {
+                            let reader: tantivy::IndexReader = second.reader_builder().reload_policy(tantivy::ReloadPolicy::Manual).try_into().or_fail("reader_open_failed")?;
+                            let _ = ready_tx.send(());
+                            let _ = go_rx.recv();
+                            reader.reload().map_err(|e| Failure::new("reload_failed_during_gc", format!("{e:?}")))?;
+                            let (_s, f) = hist_schema();
+                            verify_searcher(&reader.searcher(), &f, &expected, "reader_held_during_gc")
+                        })
+                        .expect("spawn reader");
+                    let _ = ready_rx.recv_timeout(Duration::from_secs(20));
+                    let gate = sd.add_gate(gate_spec);
+                    let _ = go_tx.send(());
+                    reached = sd.wait_reached(gate, Duration::from_millis(300));
+                    unpublished = reached;
+                    cx.label_if(reached && at_lock, "reader_held_at_meta_lock");
+                    cx.label_if(reached && !at_lock, "reader_held_at_segment_file_open");
+                    // merge everything and collect: the files the held reader is about to open become obsolete
+                    let merged: Result<(), ()> = env.writer.as_mut().unwrap().merge(&ids).wait().map(|_| ()).map_err(|_| ());
+                    env.writer.as_ref().unwrap().garbage_collect_files().wait().or_fail("gc_failed")?;
+                    sd.release(gate);
+                    let r = handle.join().unwrap_or_else(|_| Err(Failure::new("panic:reader", "reader thread panicked")));
+                    r?;
+                    ensure!(merged.is_ok(), "merge_failed_while_reader_held", "the merge failed while a reader was held in its reload");
+                    env.verify("after_merge_with_reader_held")?;
+                }
             }
             _ => {
                 cx.label("race:gc_while_merge_writes_segment");
